@@ -9,9 +9,10 @@ def correspond(ctx):
     ctx.extra["rule"] = ("grids up to 5x5 (incl. 1xN, Nx1) and random graphs n<=6; is_active as variables/negations/compound "
                          "expressions; programs emitted by the real active_vertices_not_adjacent and "
                          "active_vertices_not_adjacent_and_not_segmenting vs the Lean model's programs"
-                         " + a handful of deterministic medium / LARGE instances per family (graphs.big_graphs: 40, 70 and 258..319 vertices -- vertex ids beyond CPython's small-int cache, more than 32 / 64 vertices --, boards up to 16x17); about half of the Graph objects are observed part-way through construction (accessors read, every graph constraint posted once on a throw-away Solver) before the remaining edges are added")
-    graphcorr.run_cases(ctx, graphcorr.case_nadj, ctx.n(300, 4000), "nadj", bigs=graphcorr.graph_bigs() + graphcorr.grid_bigs())
-    graphcorr.run_cases(ctx, graphcorr.case_nseg, ctx.n(300, 4000), "nseg", bigs=graphcorr.graph_bigs() + graphcorr.grid_bigs())
+                         " + a handful of deterministic medium / LARGE instances per family (graphs.big_graphs: 40, 70 and 258..319 vertices -- vertex ids beyond CPython's small-int cache, more than 32 / 64 vertices --, boards up to 16x17); about half of the Graph objects are observed part-way through construction (accessors read, every graph constraint posted once on a throw-away Solver) before the remaining edges are added"
+                         " + a deterministic sweep over EVERY size of a medium range (graphs.medium_graphs / medium_grids: for every n from 30 to 130 a star with a rim edge between its last two leaves and a path or cycle; boards of every height 30..130 with width 1 or 2 and a few transposed) -- block arithmetic in an encoder (sums cut into blocks of 24 / 40 / 50 ... with a leftover) changes branch at sizes nobody knows in advance")
+    graphcorr.run_cases(ctx, graphcorr.case_nadj, ctx.n(300, 4000), "nadj", bigs=graphcorr.graph_bigs() + graphcorr.grid_bigs() + graphcorr.medium_bigs() + graphcorr.medium_grid_bigs())
+    graphcorr.run_cases(ctx, graphcorr.case_nseg, ctx.n(300, 4000), "nseg", bigs=graphcorr.graph_bigs() + graphcorr.grid_bigs() + graphcorr.medium_bigs() + graphcorr.medium_grid_bigs())
     if not ctx.quick():
         for f in search(ctx, None, maxcells=16):
             ctx.disagree("semantic", what=f.what, data=f.data)
@@ -106,6 +107,44 @@ def _check_graph_patterns(n, edges, seg, patterns):
     return None
 
 
+def _check_grid_patterns(h, w, seg, patterns):
+    """Selected patterns [(name, set of (y, x))] of an h x w board through the BoolArray2D forms (seg=False: not_adjacent, seg=True:
+    ..._and_not_segmenting)."""
+    from cspuz import graph as G
+
+    def builder(s):
+        arr = s.bool_array((h, w))
+        if seg:
+            return lambda: G.active_vertices_not_adjacent_and_not_segmenting(s, arr)
+        return lambda: G.active_vertices_not_adjacent(s, arr)
+    decls, cs, base, _ = graphs.real_program(builder)
+    edges = graphs.grid_edges(h, w)
+    for name, cells in patterns:
+        pat = [(y, x) in cells for y in range(h) for x in range(w)]
+        want = _defn(h * w, edges, pat) if seg else not any(pat[u] and pat[v] for u, v in edges)
+        got = exprio.solve_prog(decls, cs, base, {f"b{i}": pat[i] for i in range(h * w)}) is not None
+        if got != want:
+            return name, sorted(cells), got, want
+    return None
+
+
+def thin_board_patterns(h, w):
+    """Patterns for a tall thin (or flat wide) board: the only violation a pair of adjacent cells in the LAST two rows / columns, in the
+    middle, at the top; single cells; every other cell of the first column (the oracle decides each of them)."""
+    out = [("none", set()), ("last cell", {(h - 1, w - 1)}), ("every other cell of column 0", {(y, 0) for y in range(0, h, 2)})]
+    if h >= 2:
+        out += [("vertical pair in the last two rows, column 0", {(h - 2, 0), (h - 1, 0)}),
+                ("vertical pair in the last two rows, last column", {(h - 2, w - 1), (h - 1, w - 1)}),
+                ("vertical pair in the middle", {(h // 2 - 1, 0), (h // 2, 0)}), ("vertical pair at the top", {(0, w - 1), (1, w - 1)})]
+    if h >= 4:
+        out += [("cells two rows apart at the bottom", {(h - 3, 0), (h - 1, 0)})]
+    if w >= 2:
+        out += [("horizontal pair in the last two columns, last row", {(h - 1, w - 2), (h - 1, w - 1)}),
+                ("horizontal pair in the last two columns, row 0", {(0, w - 2), (0, w - 1)}),
+                ("horizontal pair in the middle", {(h // 2, w // 2 - 1), (h // 2, w // 2)})]
+    return out
+
+
 def snake(rng, h, w, tries=40):
     """A long diagonal chain of pairwise non-adjacent cells that starts on the border and otherwise stays inside
     (deep rank chains are what a too-small rank range breaks)."""
@@ -176,6 +215,28 @@ def search(ctx, why, maxcells=None):
             if bad and "nadj-grid" not in found:
                 found["nadj-grid"] = Finding("nadj-grid", f"active_vertices_not_adjacent on {h}x{w}, pattern {bad[0]}: sat={bad[1]} expected {bad[2]}",
                                              {"h": h, "w": w, "pattern": bad[0], "kind": "nadj-grid"})
+    # EVERY height of the medium range on tall thin boards (and a few flat wide ones): encoders that walk the rows in bands change
+    # branch at heights nobody knows in advance.  not_adjacent on all of them; the (costlier) not_segmenting form on every third.
+    for idx, (h, w) in enumerate(graphs.medium_grids()):
+        for seg in (False, True):
+            key = "medium-board:" + ("nseg" if seg else "nadj")
+            if key in found or (seg and idx % 3 != 2):
+                continue
+            pats = thin_board_patterns(h, w)
+            if seg:
+                pats = [p for p in pats if "last" in p[0] or p[0] == "none"]
+            try:
+                bad = _check_grid_patterns(h, w, seg, pats)
+            except Exception as e:
+                bad = ("exception", None, core.err_name(e), str(e)[:200])
+            ctx.count("search:" + key)
+            if bad:
+                found[key] = Finding(
+                    ("nseg" if seg else "nadj") + "-grid:medium-board",
+                    f"active_vertices_not_adjacent{'_and_not_segmenting' if seg else ''} on a {h}x{w} BoolArray2D, active cells ({bad[0]}) = "
+                    f"{bad[1] if bad[1] is None or len(bad[1]) <= 12 else str(bad[1][:6]) + ' ... ' + str(bad[1][-6:])}: satisfiable={bad[2]} "
+                    f"but the definition gives {bad[3]}",
+                    {"kind": "grid-patterns", "h": h, "w": w, "seg": seg, "pattern_name": bad[0], "cells": [list(c) for c in bad[1]] if bad[1] else []})
     # larger boards: long diagonal chains (+ one closing / one extra cell), which exercise the rank range
     for (h, w) in ((5, 5), (6, 6), (7, 7), (8, 8), (5, 8), (8, 5)):
         if "nseg-grid:2d" in found:
@@ -238,6 +299,8 @@ def replay(ctx, data):
     k = data.get("kind")
     if k == "nseg-big":
         bad = _check_big(data["h"], data["w"], [tuple(data["pattern"])])
+    elif k == "grid-patterns":
+        bad = _check_grid_patterns(data["h"], data["w"], data["seg"], [(data.get("pattern_name"), {tuple(c) for c in data["cells"]})])
     elif k == "nseg-grid":
         bad = _check_grid(data["h"], data["w"])
     elif k == "nadj-grid":
